@@ -1,6 +1,6 @@
 (* C07 - a truncated file is never mistaken for a valid pose; trailing bytes are ignored.
    Only statements, closed by [exact], each followed by Print Assumptions. *)
-From Coq Require Import ZArith NArith List String Bool.
+From Coq Require Import ZArith NArith List Bool.
 Require Import ListN Result Bytes Prog Codec PoseRead CodecRT PoseReadLemmas WindowLemmas StreamRead C03_Window C07_Trunc CodecGenTie C01_Examples C03_Examples.
 Import ListNotations.
 Open Scope N_scope.
